@@ -49,8 +49,9 @@ claimed.update({
                      "the OIDC authenticator never crashes on any verified subject and derives the identity only from a well-formed system:serviceaccount:ns:sa subject with a matching audience.",
                 note="Also: validity arithmetic of the issued certificate (genCertTemplateFromCSR): never beyond the signing certificate's expiry, never longer than requested, nothing issued by an expired signer. Outside: X.509/ASN.1/PEM/crypto, token signature verification, MaxCertTTL/default TTL selection.", ref="§4 C09"),
     "C13": dict(text="Endpoint index: sequential specification (per service and registry shard the index holds exactly the last report; nothing remains of removed shards/services/registries, service accounts included) "
-                     "for every operation sequence inside the bound, and linearizability of a report against a concurrent delete / registry removal / prune under every interleaving (<= 3 pre-emptions): the report is never lost.",
-                note="Outside: locality weighting, load balancing, network gateways, EDS generation from the index.", ref="§4 C13"),
+                     "for every operation sequence inside the bound, and linearizability of a report against a concurrent delete / registry removal / prune under every interleaving (<= 3 pre-emptions): the report is never lost; push decision of a report (NoPush only if nothing served changes); "
+                     "EDS generation from the index: the real BuildClusterLoadAssignment serves exactly the live members of the subset on the cluster's port (symbolic health, labels, port names; unhealthy members marked).",
+                note="Outside: locality weighting and failover, network gateways / split horizon, mTLS metadata, weights, clusters with persistent sessions.", ref="§4 C13"),
     "C18": dict(text="Renewal arithmetic of rotateTime in IEEE-754 doubles for every lifetime (1 s..10 y), grace ratio, jitter and random draw: delay >= 0, never later than expiry, strictly before when ratio-jitter >= 2^-10; "
                      "GenerateSecret under every interleaving of two callers (<= 2 pre-emptions): one signing request, same matching key/chain for all, exactly one rotation per certificate, failures not sticky; "
                      "rotation task clears/notifies once, ignores superseded certificates, changed root announced once.",
